@@ -221,6 +221,34 @@ func (t *T) Leak() { t.mu.Lock() }
 		"unbalanced T.Leak T.mu")
 }
 
+// A lock released explicitly at the end but not on an early return leaks on that path.
+func TestEarlyReturnLeak(t *testing.T) {
+	fs := run(t, `
+func (t *T) Claim(refuse bool) int {
+	t.mu.Lock()
+	if refuse {
+		return 0
+	}
+	t.n++
+	t.mu.Unlock()
+	return 1
+}
+func (t *T) Fine(refuse bool) int {
+	t.mu.Lock()
+	if refuse {
+		t.mu.Unlock()
+		return 0
+	}
+	t.n++
+	t.mu.Unlock()
+	return 1
+}
+`)
+	want(t, fs,
+		"unbalanced T.Claim T.mu",
+		"!unbalanced T.Fine T.mu")
+}
+
 func TestJSONAndRoots(t *testing.T) {
 	fs := run(t, `
 type S struct{ name string; t *T }
